@@ -141,6 +141,9 @@
 (declare-fun jnum (BSeq BSeq) Int)
 (declare-fun jbool (BSeq BSeq) Bool)
 (declare-fun jhas (BSeq BSeq) Bool)
+; a member that is an array of strings: its length and its k-th element
+(declare-fun jarrlen (BSeq BSeq) Int)
+(declare-fun jarrstr (BSeq BSeq Int) BSeq)
 (declare-fun statustext (Int) BSeq)
 (declare-fun contains (BSeq BSeq) Bool)
 (assert (forall ((s BSeq)) (! (<= (len (trim s)) (len s)) :pattern ((trim s)))))
